@@ -1,17 +1,24 @@
 package strutil
 
-import "strings"
+import (
+	"strings"
+	"unicode/utf8"
+)
 
 // HasSubseq determines whether s has t as its subsequence. A string t is a
 // subsequence of a string s if and only if there is a possible sequence of
 // steps of deleting characters from s that result in t.
 func HasSubseq(s, t string) bool {
-	for _, p := range t {
-		i := strings.IndexRune(s, p)
+	for len(t) > 0 {
+		// Match one character of t at a time. An invalid byte is matched as
+		// itself, not as U+FFFD (whose encoding has a different length).
+		_, size := utf8.DecodeRuneInString(t)
+		i := strings.Index(s, t[:size])
 		if i == -1 {
 			return false
 		}
-		s = s[i+len(string(p)):]
+		s = s[i+size:]
+		t = t[size:]
 	}
 	return true
 }
